@@ -254,3 +254,12 @@ def load_known_findings():
     if not os.path.exists(p):
         return {"findings": [], "fixed": []}
     return json.load(open(p))
+
+
+def boost():
+    """factor by which quick-tier input counts are multiplied (set when the package source differs
+    from the fingerprinted baseline, see harness/fingerprint.py)"""
+    try:
+        return max(1, int(os.environ.get("VERIF_BOOST", "1")))
+    except ValueError:
+        return 1
